@@ -1,1 +1,678 @@
-fn main() { eprintln!("engine not built yet"); std::process::exit(2); }
+//! C13 — sieve tables equal the arithmetic definitions for every n up to the limit.
+//!
+//! Form I, level "exploration".  For EVERY limit N in 0..=1500 (quick) / 0..=4096 (thorough) the real
+//! `Sieve::new(N)` is built and, for every n <= N, `is_prime(n)`, `min_prime(n)` (n >= 2), the whole
+//! `primes()` list and `factorize(n)` (n >= 1) are compared with a trial-division reference.  Then one
+//! big limit (10^6 quick, 10^7 thorough) is compared element by element against an independent plain
+//! sieve of Eratosthenes (not a linear sieve), including `factorize(n)` for every n <= N.
+//!
+//! `factorize` divides by table entries in a loop; on a broken table that can divide by zero (a panic,
+//! caught) or spin forever.  It is therefore only called for a sieve whose `min_prime(m)` has already been
+//! verified for every 2 <= m <= N (otherwise the min_prime violation is the verdict for that N), never
+//! when the two undemanded entries `min_prime(0)`/`min_prime(1)` would make it spin, with at most
+//! `MAX_ITEMS` items taken and consumption stopped at the first wrong item.
+
+use rayon::prelude::*;
+use rlib_sieve::Sieve;
+use std::collections::BTreeSet;
+use vcore::*;
+
+const FAMILIES: [&str; 5] = ["panic_on_new", "is_prime", "min_prime", "primes_list", "factorize"];
+const MAX_ITEMS: usize = 40;
+const CHUNK: usize = 1 << 15;
+
+// ───────────────────────────── references (independent of the code under test) ─────────────────────────────
+
+/// Least prime factor of n >= 2 by trial division.
+fn lpf_trial(n: u64) -> u64 {
+    let mut d = 2u64;
+    while d * d <= n {
+        if n % d == 0 {
+            return d;
+        }
+        d += 1;
+    }
+    n
+}
+
+/// Prime factorisation of n >= 1 by trial division: strictly increasing primes with exact exponents.
+fn factor_trial(mut n: u64) -> Vec<(i32, i32)> {
+    let mut out = vec![];
+    let mut d = 2u64;
+    while d * d <= n {
+        if n % d == 0 {
+            let mut e = 0;
+            while n % d == 0 {
+                n /= d;
+                e += 1;
+            }
+            out.push((d as i32, e));
+        }
+        d += 1;
+    }
+    if n > 1 {
+        out.push((n as i32, 1));
+    }
+    out
+}
+
+/// Plain sieve of Eratosthenes recording the least prime factor (0 for 0 and 1).  Every prime p crosses
+/// out p*p, p*p+p, ... and a cell keeps the FIRST prime that reached it — not the linear-sieve scheme.
+fn spf_eratosthenes(limit: usize) -> Vec<u32> {
+    let mut spf = vec![0u32; limit + 1];
+    for p in 2..=limit {
+        if spf[p] != 0 {
+            continue;
+        }
+        spf[p] = p as u32;
+        if p.checked_mul(p).map_or(false, |q| q <= limit) {
+            let mut m = p * p;
+            while m <= limit {
+                if spf[m] == 0 {
+                    spf[m] = p as u32;
+                }
+                m += p;
+            }
+        }
+    }
+    spf
+}
+
+/// Factorisation of n >= 1 read off a least-prime-factor table (reference table only).
+fn fact_from_spf(spf: &[u32], n: usize, buf: &mut Vec<(i32, i32)>) {
+    buf.clear();
+    let mut m = n;
+    while m > 1 {
+        let p = spf[m] as usize;
+        let mut e = 0;
+        while m % p == 0 {
+            m /= p;
+            e += 1;
+        }
+        buf.push((p as i32, e));
+    }
+}
+
+// ───────────────────────────── single comparisons (shared by enumeration and replay) ─────────────────────────────
+
+fn check_is_prime(s: &Sieve, n: usize, expected: bool) -> Result<(), String> {
+    match catch(|| s.is_prime(n as i32)) {
+        Err(p) => Err(format!("is_prime({n}) panicked: {p}")),
+        Ok(got) if got != expected => Err(format!("is_prime({n}) expected {expected} observed {got}")),
+        Ok(_) => Ok(()),
+    }
+}
+
+fn check_min_prime(s: &Sieve, n: usize, expected: u64) -> Result<(), String> {
+    match catch(|| s.min_prime(n as i32)) {
+        Err(p) => Err(format!("min_prime({n}) panicked: {p}")),
+        Ok(got) if got as i64 != expected as i64 => {
+            Err(format!("min_prime({n}) expected {expected} (least prime dividing {n}) observed {got}"))
+        }
+        Ok(_) => Ok(()),
+    }
+}
+
+/// Ok, or (index of the first difference, text).
+fn check_primes_list(s: &Sieve, expected: &[i32]) -> Result<(), (usize, String)> {
+    let got: Vec<i32> = match catch(|| s.primes().clone()) {
+        Err(p) => return Err((0, format!("primes() panicked: {p}"))),
+        Ok(v) => v,
+    };
+    if got.as_slice() == expected {
+        return Ok(());
+    }
+    let i = (0..got.len().min(expected.len())).find(|&i| got[i] != expected[i]).unwrap_or(got.len().min(expected.len()));
+    let show = |v: &[i32]| v.get(i).map_or("<end of list>".to_string(), |x| x.to_string());
+    Err((
+        i,
+        format!(
+            "primes() differs from the ascending list of all primes <= N at index {i}: expected {} observed {} (expected length {}, observed length {})",
+            show(expected),
+            show(&got),
+            expected.len(),
+            got.len()
+        ),
+    ))
+}
+
+/// The two table entries the property does not constrain decide whether `factorize` can spin on a table
+/// whose entries for n >= 2 are verified: after the last division n = 1; if min_prime(1) equals the current
+/// prime p the loop goes on to n = 0, and if min_prime(0) = p as well it stays there (0 / p = 0) forever.
+/// (If only min_prime(1) = p, the item comes out with exponent + 1, is reported, and consumption stops.)
+/// Returns true if factorize may be called (a panic while reading the entries also means "may be called":
+/// the real call would then panic too and be caught).
+fn factorize_cannot_spin(s: &Sieve) -> bool {
+    let a = catch(|| s.min_prime(1));
+    let b = catch(|| s.min_prime(0));
+    match (a, b) {
+        (Ok(a), Ok(b)) => !(a >= 2 && a == b),
+        _ => true,
+    }
+}
+
+fn check_factorize(s: &Sieve, n: usize, expected: &[(i32, i32)]) -> Result<(), String> {
+    let r = catch(|| {
+        let mut got: Vec<(i32, i32)> = Vec::new();
+        for item in s.factorize(n as i32).take(MAX_ITEMS) {
+            let k = got.len();
+            got.push(item);
+            if k >= expected.len() || expected[k] != item {
+                break; // stop consuming at the first wrong item
+            }
+        }
+        got
+    });
+    match r {
+        Err(p) => Err(format!("factorize({n}) panicked: {p}")),
+        Ok(got) if got.as_slice() == expected => Ok(()),
+        Ok(got) => {
+            let increasing = got.windows(2).all(|w| w[0].0 < w[1].0);
+            let mut prod: i128 = 1;
+            for &(p, e) in &got {
+                for _ in 0..e.clamp(0, 64) {
+                    prod = prod.saturating_mul(p as i128);
+                }
+            }
+            Err(format!(
+                "factorize({n}) expected {:?} observed {:?} (consumption stopped at the first wrong item; observed product {prod}, strictly increasing {increasing})",
+                expected, got
+            ))
+        }
+    }
+}
+
+// ───────────────────────────── book-keeping ─────────────────────────────
+
+#[derive(Clone, Debug)]
+struct Fail {
+    family: &'static str,
+    signature: String,
+    summary: String,
+    replay: Value,
+}
+
+fn fail(family: &'static str, limit: usize, n: Option<usize>, key: &str, summary: String, reference: &str) -> Fail {
+    let signature = match n {
+        Some(n) => format!("{family}:N={limit},{key}={n}"),
+        None => format!("{family}:N={limit}"),
+    };
+    Fail {
+        family,
+        signature,
+        summary: format!("Sieve::new({limit}): {summary}"),
+        replay: json!({"family": family, "N": limit, "n": n, "reference": reference}),
+    }
+}
+
+#[derive(Default, Clone)]
+struct Counters {
+    news: u64,
+    is_prime: u64,
+    min_prime: u64,
+    primes_list: u64,
+    primes_list_elements: u64,
+    factorize: u64,
+    factorize_items: u64,
+    pairs: u64,
+    skipped_out_of_domain: u64,
+    factorize_skipped_min_prime_wrong: u64,
+    factorize_skipped_table_could_spin: u64,
+    max_exponent: u64,
+    max_distinct_primes: u64,
+    shapes: BTreeSet<u64>,
+}
+
+impl Counters {
+    fn merge(&mut self, o: &Counters) {
+        self.news += o.news;
+        self.is_prime += o.is_prime;
+        self.min_prime += o.min_prime;
+        self.primes_list += o.primes_list;
+        self.primes_list_elements += o.primes_list_elements;
+        self.factorize += o.factorize;
+        self.factorize_items += o.factorize_items;
+        self.pairs += o.pairs;
+        self.skipped_out_of_domain += o.skipped_out_of_domain;
+        self.factorize_skipped_min_prime_wrong += o.factorize_skipped_min_prime_wrong;
+        self.factorize_skipped_table_could_spin += o.factorize_skipped_table_could_spin;
+        self.max_exponent = self.max_exponent.max(o.max_exponent);
+        self.max_distinct_primes = self.max_distinct_primes.max(o.max_distinct_primes);
+        self.shapes.extend(o.shapes.iter().copied());
+    }
+    fn evaluations(&self) -> u64 {
+        self.news + self.is_prime + self.min_prime + self.primes_list + self.factorize
+    }
+    /// Record a factorisation that was observed equal to the reference.
+    fn saw_factorisation(&mut self, f: &[(i32, i32)]) {
+        self.factorize += 1;
+        self.factorize_items += f.len() as u64;
+        self.max_distinct_primes = self.max_distinct_primes.max(f.len() as u64);
+        let mut shape = 1u64;
+        for &(_, e) in f {
+            self.max_exponent = self.max_exponent.max(e as u64);
+            shape = (shape << 5) | (e as u64 & 31);
+        }
+        self.shapes.insert(shape);
+    }
+}
+
+#[derive(Default)]
+struct Outcome {
+    fails: Vec<Fail>, // at most one per family, the first in enumeration order
+    c: Counters,
+}
+
+impl Outcome {
+    fn push(&mut self, f: Fail) {
+        if !self.fails.iter().any(|g| g.family == f.family) {
+            self.fails.push(f);
+        }
+    }
+    fn has(&self, family: &str) -> bool {
+        self.fails.iter().any(|g| g.family == family)
+    }
+}
+
+// ───────────────────────────── small limits: every N, every n, trial division ─────────────────────────────
+
+struct SmallRef {
+    lpf: Vec<u64>,                 // 0 for n < 2
+    fact: Vec<Vec<(i32, i32)>>,    // empty for 0 and 1
+    primes: Vec<i32>,              // ascending, all primes <= max
+}
+
+fn small_reference(max: usize) -> SmallRef {
+    let lpf: Vec<u64> = (0..=max as u64).map(|n| if n < 2 { 0 } else { lpf_trial(n) }).collect();
+    let fact: Vec<Vec<(i32, i32)>> = (0..=max as u64).map(|n| if n < 2 { vec![] } else { factor_trial(n) }).collect();
+    let primes: Vec<i32> = (2..=max).filter(|&n| lpf[n] == n as u64).map(|n| n as i32).collect();
+    SmallRef { lpf, fact, primes }
+}
+
+fn check_small_limit(limit: usize, r: &SmallRef) -> Outcome {
+    let mut o = Outcome::default();
+    o.c.news = 1;
+    let s = match catch(|| Sieve::new(limit)) {
+        Ok(s) => s,
+        Err(p) => {
+            o.push(fail("panic_on_new", limit, None, "", format!("constructor panicked: {p}"), "trial"));
+            return o;
+        }
+    };
+    for n in 0..=limit {
+        o.c.pairs += 1;
+        o.c.is_prime += 1;
+        let isp = n >= 2 && r.lpf[n] == n as u64;
+        if let Err(m) = check_is_prime(&s, n, isp) {
+            o.push(fail("is_prime", limit, Some(n), "n", m, "trial"));
+        }
+        if n >= 2 {
+            o.c.min_prime += 1;
+            if let Err(m) = check_min_prime(&s, n, r.lpf[n]) {
+                o.push(fail("min_prime", limit, Some(n), "n", m, "trial"));
+            }
+        } else {
+            o.c.skipped_out_of_domain += 1; // min_prime(0), min_prime(1): not constrained by the property
+        }
+    }
+    o.c.primes_list += 1;
+    let np = r.primes.partition_point(|&p| p as usize <= limit);
+    o.c.primes_list_elements += np as u64;
+    if let Err((i, m)) = check_primes_list(&s, &r.primes[..np]) {
+        o.push(fail("primes_list", limit, Some(i), "i", m, "trial"));
+    }
+    o.c.skipped_out_of_domain += 1; // factorize(0): not constrained
+    if o.has("min_prime") {
+        o.c.factorize_skipped_min_prime_wrong += 1;
+    } else if !factorize_cannot_spin(&s) {
+        o.c.factorize_skipped_table_could_spin += 1;
+    } else {
+        for n in 1..=limit {
+            match check_factorize(&s, n, &r.fact[n]) {
+                Ok(()) => o.c.saw_factorisation(&r.fact[n]),
+                Err(m) => {
+                    o.c.factorize += 1;
+                    o.push(fail("factorize", limit, Some(n), "n", m, "trial"));
+                    break; // the first failing n of this limit is enough; later calls on a bad table are not needed
+                }
+            }
+        }
+    }
+    o
+}
+
+// ───────────────────────────── big limit: element by element against Eratosthenes ─────────────────────────────
+
+fn check_big_limit(limit: usize, spf: &[u32]) -> Outcome {
+    let mut o = Outcome::default();
+    o.c.news = 1;
+    let s = match catch(|| Sieve::new(limit)) {
+        Ok(s) => s,
+        Err(p) => {
+            o.push(fail("panic_on_new", limit, None, "", format!("constructor panicked: {p}"), "eratosthenes"));
+            return o;
+        }
+    };
+    let starts: Vec<usize> = (0..=limit).step_by(CHUNK).collect();
+    // pass 1: is_prime, min_prime
+    let parts: Vec<Outcome> = starts
+        .par_iter()
+        .map(|&a| {
+            let mut o = Outcome::default();
+            for n in a..(a + CHUNK).min(limit + 1) {
+                o.c.pairs += 1;
+                o.c.is_prime += 1;
+                let isp = n >= 2 && spf[n] as usize == n;
+                if let Err(m) = check_is_prime(&s, n, isp) {
+                    o.push(fail("is_prime", limit, Some(n), "n", m, "eratosthenes"));
+                }
+                if n >= 2 {
+                    o.c.min_prime += 1;
+                    if let Err(m) = check_min_prime(&s, n, spf[n] as u64) {
+                        o.push(fail("min_prime", limit, Some(n), "n", m, "eratosthenes"));
+                    }
+                } else {
+                    o.c.skipped_out_of_domain += 1;
+                }
+            }
+            o
+        })
+        .collect();
+    for p in parts {
+        // chunks are in ascending order of n, so the first failure kept per family is the smallest n
+        o.c.merge(&p.c);
+        for f in p.fails {
+            o.push(f);
+        }
+    }
+    // primes()
+    let expected: Vec<i32> = (2..=limit).filter(|&n| spf[n] as usize == n).map(|n| n as i32).collect();
+    o.c.primes_list += 1;
+    o.c.primes_list_elements += expected.len() as u64;
+    if let Err((i, m)) = check_primes_list(&s, &expected) {
+        o.push(fail("primes_list", limit, Some(i), "i", m, "eratosthenes"));
+    }
+    // pass 2: factorize, only on a verified min_prime table
+    o.c.skipped_out_of_domain += 1;
+    if o.has("min_prime") {
+        o.c.factorize_skipped_min_prime_wrong += 1;
+    } else if !factorize_cannot_spin(&s) {
+        o.c.factorize_skipped_table_could_spin += 1;
+    } else {
+        let parts: Vec<Outcome> = starts
+            .par_iter()
+            .map(|&a| {
+                let mut o = Outcome::default();
+                let mut buf = Vec::with_capacity(16);
+                for n in a.max(1)..(a + CHUNK).min(limit + 1) {
+                    fact_from_spf(spf, n, &mut buf);
+                    match check_factorize(&s, n, &buf) {
+                        Ok(()) => o.c.saw_factorisation(&buf),
+                        Err(m) => {
+                            o.c.factorize += 1;
+                            o.push(fail("factorize", limit, Some(n), "n", m, "eratosthenes"));
+                            break;
+                        }
+                    }
+                }
+                o
+            })
+            .collect();
+        for p in parts {
+            o.c.merge(&p.c);
+            for f in p.fails {
+                o.push(f);
+            }
+        }
+    }
+    o
+}
+
+// ───────────────────────────── replay: one recorded case, no enumeration ─────────────────────────────
+
+fn confirm(v: &Value) -> Result<(), String> {
+    let family = v["family"].as_str().ok_or("replay: no family")?.to_string();
+    let limit = v["N"].as_u64().ok_or("replay: no N")? as usize;
+    let wrap = |m: String| format!("Sieve::new({limit}): {m}");
+    let s = match catch(|| Sieve::new(limit)) {
+        Ok(s) => s,
+        Err(p) => return Err(wrap(format!("constructor panicked: {p}"))),
+    };
+    if family == "panic_on_new" {
+        return Ok(());
+    }
+    if family == "primes_list" {
+        // whole list against the reference that found it (trial division for small limits)
+        let expected: Vec<i32> = if v["reference"] == "trial" {
+            (2..=limit as u64).filter(|&n| lpf_trial(n) == n).map(|n| n as i32).collect()
+        } else {
+            let spf = spf_eratosthenes(limit);
+            (2..=limit).filter(|&n| spf[n] as usize == n).map(|n| n as i32).collect()
+        };
+        return check_primes_list(&s, &expected).map_err(|(_, m)| wrap(m));
+    }
+    let n = v["n"].as_u64().ok_or("replay: no n")? as usize;
+    match family.as_str() {
+        "is_prime" => check_is_prime(&s, n, n >= 2 && lpf_trial(n as u64) == n as u64).map_err(wrap),
+        "min_prime" => {
+            if n < 2 {
+                return Err("replay: min_prime is only constrained for n >= 2".into());
+            }
+            check_min_prime(&s, n, lpf_trial(n as u64)).map_err(wrap)
+        }
+        "factorize" => {
+            if n < 1 {
+                return Err("replay: factorize is only constrained for n >= 1".into());
+            }
+            // Safety walk with the real table before the real call: every entry on the division chain of n
+            // must be a divisor >= 2 (then the chain strictly decreases to 1), and the entries for 1 and 0
+            // must not let the loop run on at 0.
+            let mut m = n;
+            while m > 1 {
+                match catch(|| s.min_prime(m as i32)) {
+                    Ok(p) if p >= 2 && m % p as usize == 0 && p as u64 == lpf_trial(m as u64) => m /= p as usize,
+                    Ok(p) => {
+                        return Err(wrap(format!(
+                            "factorize({n}) not executed: min_prime({m}) = {p} on its division chain is not the least prime factor {}",
+                            lpf_trial(m as u64)
+                        )))
+                    }
+                    Err(p) => return Err(wrap(format!("factorize({n}) not executed: min_prime({m}) panicked: {p}"))),
+                }
+            }
+            if !factorize_cannot_spin(&s) {
+                return Err(wrap(format!(
+                    "factorize({n}) not executed: min_prime(0) = min_prime(1) >= 2, the division loop could run forever"
+                )));
+            }
+            check_factorize(&s, n, &factor_trial(n as u64)).map_err(wrap)
+        }
+        other => Err(format!("replay: unknown family {other}")),
+    }
+}
+
+// ───────────────────────────── main ─────────────────────────────
+
+fn observed_sample(limit: usize, ns: &[usize]) -> Value {
+    let r = catch(|| {
+        let s = Sieve::new(limit);
+        let pr = s.primes();
+        let head: Vec<i32> = pr.iter().take(12).copied().collect();
+        let tail: Vec<i32> = pr.iter().skip(pr.len().saturating_sub(3)).copied().collect();
+        let mut ns: Vec<usize> = ns.iter().copied().filter(|&n| n <= limit).collect();
+        ns.sort();
+        ns.dedup();
+        let per_n: Vec<Value> = ns
+            .iter()
+            .map(|&n| {
+                // same protection as on the deciding path: walk the division chain with the real table first
+                let mut safe = n >= 1 && factorize_cannot_spin(&s);
+                let mut m = n;
+                while safe && m > 1 {
+                    let p = s.min_prime(m as i32);
+                    safe = p >= 2 && m % p as usize == 0;
+                    if safe {
+                        m /= p as usize;
+                    }
+                }
+                let f: Value = if safe { json!(s.factorize(n as i32).take(MAX_ITEMS).collect::<Vec<(i32, i32)>>()) } else { json!("not executed") };
+                json!({"n": n, "is_prime": s.is_prime(n as i32), "min_prime": if n >= 2 { json!(s.min_prime(n as i32)) } else { Value::Null }, "factorize": f})
+            })
+            .collect();
+        json!({"N": limit, "primes_len": pr.len(), "primes_first": head, "primes_last": tail, "observed": per_n})
+    });
+    r.unwrap_or_else(|p| json!({"N": limit, "panicked": p}))
+}
+
+fn main() {
+    let args = Args::parse();
+    quiet_panics();
+    if args.replay.is_some() {
+        Run::replay_main(&args, &confirm);
+    }
+    let mut run = Run::new(&args, "sieve", "exploration");
+    let max_small: usize = args.tier.pick(1500, 4096);
+    let big: usize = args.tier.pick(1_000_000, 10_000_000);
+
+    // references and their self-checks (independent of the code under test)
+    let sref = small_reference(max_small);
+    let spf = spf_eratosthenes(big);
+    for n in 2..=max_small {
+        if spf[n] as u64 != sref.lpf[n] {
+            run.machinery_failure(&format!("the two references disagree on the least prime factor of {n}"));
+        }
+    }
+    let pi_big = (2..=big).filter(|&n| spf[n] as usize == n).count();
+    let pi_known = args.tier.pick(78_498, 664_579);
+    if pi_big != pi_known {
+        run.machinery_failure(&format!("reference Eratosthenes sieve counts {pi_big} primes <= {big}, the known value is {pi_known}"));
+    }
+    {
+        // strided cross-check of the Eratosthenes table against trial division over the whole big range
+        let stride = 997;
+        let bad = (2..=big).step_by(stride).collect::<Vec<_>>().par_iter().find_first(|&&n| lpf_trial(n as u64) != spf[n] as u64).copied();
+        if let Some(n) = bad {
+            run.machinery_failure(&format!("reference Eratosthenes table wrong at {n}"));
+        }
+    }
+
+    // every small limit
+    let outcomes: Vec<Outcome> = (0..=max_small).into_par_iter().map(|limit| check_small_limit(limit, &sref)).collect();
+    let mut total = Counters::default();
+    let mut first: Vec<Fail> = vec![]; // per family, first in order of N then n
+    let (mut lim_prime, mut lim_sq, mut lim_pq, mut lim_next_composite, mut lim_next_prime) = (0u64, 0u64, 0u64, 0u64, 0u64);
+    let mut limits_compared = 0u64;
+    for (limit, o) in outcomes.iter().enumerate() {
+        total.merge(&o.c);
+        for f in &o.fails {
+            if !first.iter().any(|g| g.family == f.family) {
+                first.push(f.clone());
+            }
+        }
+        if o.has("panic_on_new") {
+            continue;
+        }
+        limits_compared += 1;
+        let f = &sref.fact[limit];
+        match f.as_slice() {
+            [(_, 1)] => lim_prime += 1,
+            [(_, 2)] => lim_sq += 1,
+            [(_, 1), (_, 1)] => lim_pq += 1,
+            _ => {}
+        }
+        if limit + 1 >= 4 && limit + 1 <= max_small {
+            if sref.lpf[limit + 1] == (limit + 1) as u64 {
+                lim_next_prime += 1;
+            } else {
+                lim_next_composite += 1;
+            }
+        }
+    }
+    let small_counters = total.clone();
+
+    // the big limit
+    let ob = check_big_limit(big, &spf);
+    total.merge(&ob.c);
+    for f in &ob.fails {
+        if !first.iter().any(|g| g.family == f.family) {
+            first.push(f.clone());
+        }
+    }
+
+    first.sort_by_key(|f| FAMILIES.iter().position(|x| *x == f.family));
+    for f in &first {
+        run.violation(Violation::new(f.signature.clone(), f.summary.clone(), f.replay.clone()));
+    }
+    let limits_with_failure = outcomes.iter().filter(|o| !o.fails.is_empty()).count() as u64 + (!ob.fails.is_empty()) as u64;
+
+    run.cov("evaluations", total.evaluations());
+    run.cov("distinct_nontrivial", lim_prime + lim_sq + lim_pq);
+    run.cov(
+        "rule",
+        format!(
+            "every limit N in 0..={max_small} (each a fresh Sieve::new(N)) x every n in 0..=N: is_prime(n); min_prime(n) for n>=2; factorize(n) for n>=1; primes() whole list — against trial division; plus N={big} element by element (is_prime, min_prime, factorize for every n<=N, primes()) against a plain Eratosthenes sieve. evaluations = calls of the real code compared with the reference (constructor + is_prime + min_prime + primes() + factorize calls). distinct_nontrivial = number of distinct small limits N, built and compared, whose last table entry N is a prime, a prime square p^2 or a product p*q of two distinct primes (classified by the trial-division reference): the limits where the last outer iteration appends a prime, or where the last composite is written at the very edge of the table by the cut-off `prime*i >= len`"
+        ),
+    );
+    run.cov("exhaustive", true);
+    run.cov("small_limit_max", max_small as u64);
+    run.cov("big_limit", big as u64);
+    run.cov("limits_built", total.news);
+    run.cov("limits_compared_small", limits_compared);
+    run.cov("limits_with_a_failure", limits_with_failure);
+    run.cov("pairs_N_n", total.pairs);
+    run.cov("pairs_N_n_small", small_counters.pairs);
+    run.cov("calls_is_prime", total.is_prime);
+    run.cov("calls_min_prime", total.min_prime);
+    run.cov("calls_factorize", total.factorize);
+    run.cov("calls_primes_list", total.primes_list);
+    run.cov("primes_list_elements_compared", total.primes_list_elements);
+    run.cov("factorize_items_compared", total.factorize_items);
+    run.cov("factorize_distinct_exponent_shapes", total.shapes.len() as u64);
+    run.cov("factorize_max_exponent", total.max_exponent);
+    run.cov("factorize_max_distinct_primes", total.max_distinct_primes);
+    run.cov("factorize_skipped_limits_min_prime_wrong", total.factorize_skipped_min_prime_wrong);
+    run.cov("factorize_skipped_limits_table_could_spin", total.factorize_skipped_table_could_spin);
+    run.cov("skipped_out_of_domain", total.skipped_out_of_domain);
+    run.cov("skipped_out_of_domain_note", "min_prime(0), min_prime(1) and factorize(0) per limit: not constrained by the statement, never compared");
+    run.cov("small_limits_N_prime", lim_prime);
+    run.cov("small_limits_N_prime_square", lim_sq);
+    run.cov("small_limits_N_semiprime_pq", lim_pq);
+    run.cov("small_limits_table_len_N_plus_1_composite", lim_next_composite);
+    run.cov("small_limits_table_len_N_plus_1_prime", lim_next_prime);
+    run.cov("reference_prime_count_big", pi_big as u64);
+
+    // samples (VERIF_SEED only rotates which ones are printed)
+    let rot = (args.seed % 64) as usize;
+    for &limit in &[1usize, 4, 9 + rot, 120 + rot, max_small - rot] {
+        run.sample(observed_sample(limit, &[0, 1, 2, limit.saturating_sub(1), limit]));
+    }
+    run.sample(observed_sample(big, &[1, 2, 720_720 + rot, 999_983, 1 << 19, big - 1, big]));
+
+    // a table that could make factorize spin was never exercised: no verdict possible on that clause
+    if !run.has_violations() {
+        if total.factorize_skipped_table_could_spin > 0 {
+            run.machinery_failure("min_prime(0) = min_prime(1) >= 2 for some limit: factorize could not be executed safely, no verdict");
+        }
+        // non-vacuity
+        let want_pairs: u64 = (0..=max_small as u64).map(|n| n + 1).sum::<u64>() + big as u64 + 1;
+        if total.pairs != want_pairs {
+            run.machinery_failure(&format!("compared {} (N,n) pairs, expected {want_pairs}", total.pairs));
+        }
+        if total.news != max_small as u64 + 2 || limits_compared != max_small as u64 + 1 {
+            run.machinery_failure("not every limit was built and compared");
+        }
+        if total.factorize != total.pairs - (max_small as u64 + 2) {
+            run.machinery_failure("factorize was not compared for every n >= 1 of every limit");
+        }
+        if lim_prime < 100 || lim_sq < 10 || lim_pq < 100 || lim_next_composite < 100 || lim_next_prime < 100 {
+            run.machinery_failure("limits adjacent to primes / prime squares / semiprimes were not all visited");
+        }
+        if small_counters.max_exponent < 10 || small_counters.max_distinct_primes < 4 || total.shapes.len() < 50 {
+            run.machinery_failure("factorisations with high exponents / several distinct primes were not seen");
+        }
+        if total.primes_list_elements < pi_big as u64 {
+            run.machinery_failure("prime lists were not compared");
+        }
+    }
+    run.finish(&confirm)
+}
